@@ -217,23 +217,9 @@ Fixpoint nondecreasing (l : list N) : Prop :=
 Definition sparse_valid (len : N) (vs : list N) : Prop :=
   len < 2 ^ 64 /\ nondecreasing vs /\ Forall (fun v => v < len) vs.
 
-(* sparse_vector::Iter (double-ended, exact size; nth / nth_back std defaults), sets and multisets *)
-Definition C10_sparse_iter_statement (St : Type) (start : N * list N -> res St)
-    (step : N * list N -> St -> call -> res (St * out (N * N))) : Prop :=
-  refines_deque (fun x => sparse_valid (fst x) (snd x)) start step call_fits
-                (fun x => ref_of (SSparse (fst x) (snd x)) EIter).
-(* sparse_vector::OneIter from one_iter / select_iter r / predecessor v / successor v (double-ended), sets and multisets *)
-Definition C10_sparse_one_iter_statement (St : Type) (start : N * list N * entry -> res St)
-    (step : N * list N * entry -> St -> call -> res (St * out (N * N))) : Prop :=
-  refines_deque (fun x => sparse_valid (fst (fst x)) (snd (fst x)) /\ entry_fits (snd x) /\
-                          match snd x with EOne | ESelect _ | EPred _ | ESucc _ => True | _ => False end)
-                start step call_fits (fun x => ref_of (SSparse (fst (fst x)) (snd (fst x))) (snd x)).
-(* sparse_vector::ZeroIter from zero_iter / select_zero_iter r (forward only; sets only, as documented) *)
-Definition C10_sparse_zero_iter_statement (St : Type) (start : N * list N * entry -> res St)
-    (step : N * list N * entry -> St -> call -> res (St * out (N * N))) : Prop :=
-  refines_deque (fun x => sparse_valid (fst (fst x)) (snd (fst x)) /\ NoDup (snd (fst x)) /\ entry_fits (snd x) /\
-                          match snd x with EZero | ESelectZero _ => True | _ => False end)
-                start step fwd_fits (fun x => ref_of (SSparse (fst (fst x)) (snd (fst x))) (snd x)).
+(* sparse vector (Iter; OneIter from one_iter / select_iter / predecessor / successor; ZeroIter from zero_iter /
+   select_zero_iter), sets and multisets: PROVED, see C10_sparse_iter, C10_sparse_one_iter, C10_sparse_zero_iter in
+   Props/C10_sparse.v (over Model/Sparse.v + Model/SparseIters.v, against the same reference ref_of (SSparse n vs) e) *)
 
 (* run-length vector (RunIter; Iter / OneIter / ZeroIter from every entry point): PROVED, see C10_rl_run_iter and
    C10_rl_iters at the end of this file (over run lists: a universe of 2^64-1 positions is not a bit list) *)
